@@ -127,7 +127,7 @@ fn copy_worker(work: cbc::Receiver<Operation>, config: &Arc<Config>, updates: Ar
                     }
                     // The entry may be the source itself under another
                     // spelling; removing it would delete the source.
-                    if to.exists() && is_same_file(&from, &to)? {
+                    if to.try_exists()? && is_same_file(&from, &to)? {
                         return Err(XcpError::InvalidDestination("Source and destination are the same file.").into());
                     }
                     remove_file(&to)?;
